@@ -100,7 +100,7 @@ def pin_case(draw):
 
 @st.composite
 def milp_case(draw):
-    c = draw(detmodel.det_case(atom_names=['abs', 'norminf', 'maxof'], bounded_by='box', max_atoms=1, int_ok=True,
+    c = draw(detmodel.det_case(atom_names=['abs', 'norminf', 'maxof'], bounded_by='box', max_atoms=1, int_ok=True, frac_int=True,
                                fronts=('ro', 'dro')))
     # make sure there is at least one integer column, keep integer ranges small
     vt = list(c['vtypes'])
